@@ -7,6 +7,7 @@
 #include "db_impl.c"
 #include "dumpfile.h"
 #include "common.h"
+#include <sys/resource.h>
 #include "iowrap.h"
 #include <dirent.h>
 #include <sys/stat.h>
@@ -326,6 +327,7 @@ static void parse_opts(int argc, char **argv) {
     else if (!strcmp(argv[i], "verify")) g_verify = v;
     else if (!strcmp(argv[i], "tablehex")) g_tablehex = v;
     else if (!strcmp(argv[i], "max_open_files")) g_opt.max_open_files = v;
+    else if (!strcmp(argv[i], "nofile")) { struct rlimit rl; rl.rlim_cur = rl.rlim_max = (rlim_t)v; setrlimit(RLIMIT_NOFILE, &rl); }   /* before the env reads the limit */
     else if (!strcmp(argv[i], "comparator")) { g_cmp_kind = v; if (v == 1) g_opt.comparator = &g_rev; else if (v == 2) g_opt.comparator = &g_ci; }
   }
 }
